@@ -217,6 +217,9 @@ type PESSpec struct {
 	HasExt2    bool         `json:"has_ext2,omitempty"`
 	Ext2       []byte       `json:"ext2,omitempty"`
 	NoOptional bool         `json:"no_optional,omitempty"` // stream id without optional header
+	// NilOpt: the caller leaves PESHeader.OptionalHeader nil although the stream id carries the
+	// optional header; a conformant PES then has the empty one (flags 0, header_data_length 0)
+	NilOpt bool `json:"nil_opt,omitempty"`
 	// Ext2LenMode: the redundant Extension2Length field: 0 = len(Ext2), 1 = left 0, 2 = wrong
 	Ext2LenMode int `json:"ext2_len_mode,omitempty"`
 }
@@ -239,7 +242,7 @@ func clockRef(c *refts.Clock) *astits.ClockReference {
 // ToAstits builds the library PES header.
 func (p PESSpec) ToAstits() *astits.PESHeader {
 	h := &astits.PESHeader{StreamID: p.StreamID}
-	if p.NoOptional {
+	if p.NoOptional || p.NilOpt {
 		return h
 	}
 	o := &astits.PESOptionalHeader{
@@ -351,6 +354,10 @@ func genPESSpec(r *core.PRNG, rich bool) PESSpec {
 	if rich && r.Chance(1, 12) {
 		p.StreamID = 0xbf // private_stream_2: no optional header
 		p.NoOptional = true
+		return p
+	}
+	if r.Chance(1, 25) {
+		p.NilOpt = true
 		return p
 	}
 	p.PTSDTS = []uint8{0, 2, 2, 3}[r.Intn(4)]
